@@ -41,6 +41,8 @@ func runC07(c *Ctx) {
 		ruleFieldBeforeUse(c, p, "C07.field-before-use")
 		ruleAutoStateful(c, p, "C07.auto-stateful")
 		ruleAutoAdopts(c, p, "C07.auto-adopt")
+		ruleForwardAll(c, p, "C07.forward-all")
+		ruleReadFullSized(c, p, "C07.readfull-sized")
 		ruleReaderSource(c, p, "C07.source")
 		ruleReadSizes(c, p, "C07.sizes")
 	}
@@ -382,4 +384,112 @@ func ruleAutoStateful(c *Ctx, p *core.Program, rule string) {
 	}
 	c.R.Count("column types instantiated by ColAuto.Infer", n)
 	c.R.Floor(rule, cfg, n, 8)
+}
+
+// ruleReadFullSized (C07 / C16): the buffer a decoder reads into is given the size of what is announced.
+func ruleReadFullSized(c *Ctx, p *core.Program, rule string) {
+	c.R.Rule(rule, "in every DecodeColumn of package proto that hands Reader.ReadFull a receiver field or a slice of one, a store to that field of a value whose length derives from the row count (make / append of make / a re-slice to a bound computed from rows) lies on every path from the entry to a success exit: a reuse path that only checks the capacity leaves the length a previous Reset set - ReadFull of an empty slice reads nothing and every truncation of the block is accepted, or the rows are read into spare capacity while the column keeps reporting its old length")
+	cfg := p.Cfg.Name
+	n := 0
+	for _, fn := range p.Funcs() {
+		if pkgOf(fn) == nil || pkgOf(fn).Path() != core.PkgProto || fn.Name() != "DecodeColumn" || fn.Blocks == nil || len(fn.Params) < 3 {
+			continue
+		}
+		rows := fn.Params[len(fn.Params)-1]
+		fromRows := func(v ssa.Value) bool {
+			return core.DependsOn(v, func(x ssa.Value) bool { return x == ssa.Value(rows) }, false)
+		}
+		for _, call := range core.FindCalls(fn, func(f *types.Func) bool { return core.IsMethod(f, core.PkgProto, "Reader", "ReadFull") }) {
+			args := call.Common().Args
+			buf := args[len(args)-1]
+			if sl, ok := buf.(*ssa.Slice); ok {
+				// a window computed from the row count; windows by running offsets (string rows) are not sized here
+				if sl.High == nil || !fromRows(sl.High) {
+					continue
+				}
+				buf = sl.X
+			}
+			ld, ok := buf.(*ssa.UnOp)
+			if !ok || ld.Op != token.MUL {
+				continue
+			}
+			fa, ok := ld.X.(*ssa.FieldAddr)
+			if !ok || fa.X != ssa.Value(fn.Params[0]) {
+				continue
+			}
+			field := fieldNameOnly(fa.X.Type(), fa.Field)
+			n++
+			key := core.CallKey(fn, call)
+			sized := func(in ssa.Instruction) bool {
+				// a method of the column that sizes the field from the argument it is given (c.resize(rows * c.Size))
+				if cl, isCall := in.(*ssa.Call); isCall {
+					g := core.StaticFn(cl)
+					if g == nil || g.Blocks == nil || len(g.Params) == 0 || len(cl.Call.Args) == 0 || cl.Call.Args[0] != ssa.Value(fn.Params[0]) || pkgOf(g) == nil || pkgOf(g).Path() != core.PkgProto {
+						return false
+					}
+					for pi := 1; pi < len(g.Params) && pi < len(cl.Call.Args); pi++ {
+						if !fromRows(cl.Call.Args[pi]) {
+							continue
+						}
+						gp := g.Params[pi]
+						fromP := func(v ssa.Value) bool {
+							return core.DependsOn(v, func(x ssa.Value) bool { return x == ssa.Value(gp) }, false)
+						}
+						for _, gb := range g.Blocks {
+							for _, gi := range gb.Instrs {
+								gs, ok := gi.(*ssa.Store)
+								if !ok {
+									continue
+								}
+								gfa, ok := gs.Addr.(*ssa.FieldAddr)
+								if !ok || gfa.X != ssa.Value(g.Params[0]) || fieldNameOnly(gfa.X.Type(), gfa.Field) != field {
+									continue
+								}
+								if core.DependsOn(gs.Val, func(x ssa.Value) bool {
+									switch y := x.(type) {
+									case *ssa.MakeSlice:
+										return fromP(y.Len)
+									case *ssa.Slice:
+										return y.High != nil && fromP(y.High)
+									}
+									return false
+								}, true) {
+									return true
+								}
+							}
+						}
+					}
+					return false
+				}
+				st, ok := in.(*ssa.Store)
+				if !ok {
+					return false
+				}
+				sfa, ok := st.Addr.(*ssa.FieldAddr)
+				if !ok || sfa.X != ssa.Value(fn.Params[0]) || fieldNameOnly(sfa.X.Type(), sfa.Field) != field {
+					return false
+				}
+				return core.DependsOn(st.Val, func(x ssa.Value) bool {
+					switch y := x.(type) {
+					case *ssa.MakeSlice:
+						return fromRows(y.Len)
+					case *ssa.Slice:
+						return y.High != nil && fromRows(y.High)
+					}
+					return false
+				}, true)
+			}
+			w := core.ReachAvoiding(core.Entry(fn), func(in ssa.Instruction) bool {
+				r, ok := in.(*ssa.Return)
+				return ok && defaultSuccess(fn, r)
+			}, sized, nil)
+			if len(w) > 0 {
+				c.R.Bad(rule, key, cfg, p.Pos(call.Pos()), "DecodeColumn can succeed without having given "+field+" a length computed from the row count on that path", p.TrailString(w[0])...)
+			} else {
+				c.R.Ok(rule, key, cfg, p.Pos(call.Pos()), field+" is sized from the row count on every successful path")
+			}
+		}
+	}
+	c.R.Count("ReadFull into receiver fields["+cfg+"]", n)
+	c.R.Floor(rule, cfg, n, 1)
 }
